@@ -153,6 +153,12 @@ def ev(n, env):
                 return v
         if isinstance(v, Frame):
             if a == 'dropna':
+                sub = [k.value for k in n.keywords if k.arg == 'subset']
+                if sub and isinstance(sub[0], (ast.List, ast.Tuple)):
+                    return v.with_filter(*['notnull(%s)' % U(e)
+                                           for e in sub[0].elts])
+                if sub:
+                    return v.with_filter('notnull(%s)' % U(sub[0]))
                 return v.with_filter('notnull(*)')
             if a in PASS_METHODS:
                 return v
